@@ -18,6 +18,7 @@ func init() {
 			"D3 check-then-act under one lock: MeasurementFields.CreateFieldIfNotExists re-reads the published field map after taking the mutex and derives the copy-on-write update from that re-read value; one hinted-handoff processor per queue (shared with C03); " +
 			"D4 published metadata is immutable: clone completeness over meta.Data and the value-snapshot rule (shared with C07); D5 variables captured by the fan-out goroutines of the coordinator are written only while a mutex is held; " +
 			"D6 connection-pool tokens are paired: after a successful tryTake every path of boundedPool.Get returns a wrapped connection or frees the token; D7 the cache snapshot, the closed WAL segment list and the segment roll happen in one critical section that excludes writers (shared with C01). " +
+			"D9 guarded-by table (candidates inferred statistically with `verifcheck -guarded`, each row confirmed by reading every access): the listed fields are accessed in their struct's methods only with the struct's mutex held (write-held for writes), directly or because every chain of callers holds it; this found three genuine races (580bb20, ff23628, 74fdcd6). " +
 			"NOT decided: freedom from data races under every schedule (no sound alias analysis is available: locks are identified by access path and class), visibility of acknowledged writes to reads, liveness.",
 		RuleText:    "obligation = (rule, function, lock key | site); exact per-path lock balance exploration (no merging); lock-class graph with callee summaries; outcome/def facts for check-then-act; per-event held-lock sets for captured-variable writes",
 		Assumptions: append([]string{"locks are identified by the text of their receiver expression within a function and by (struct type, field) across functions; two instances of one class are not distinguished"}, commonAssumptions...),
@@ -451,7 +452,23 @@ func runFieldCreateUnderLock(c *core.Ctx) {
 	}
 }
 
+// guardedRows: fields confirmed (by reading every access) to be guarded by the struct's mutex. Candidates come
+// from the statistics of `verifcheck -guarded` (accessed under the mutex in at least three quarters of the sites).
+var guardedRows = []guardedRow{
+	{Rel: hhp, Type: "Service", Field: "processors", Mu: "mu", Why: "the monitor service calls Statistics while writes register processors: concurrent map iteration and map write is a fatal runtime error"},
+	{Rel: tsm1, Type: "FileStore", Field: "files", Mu: "mu", Why: "readers must see a consistent file list while Replace installs a new one"},
+	{Rel: "tsdb", Type: "Store", Field: "shards", Mu: "mu", Why: "shards are created, deleted and listed concurrently", Exempt: map[string]string{
+		"tsdb.(*Store).WithLogger":  "set-up before Open, nothing else runs yet",
+		"tsdb.(*Store).shardsSlice": "its unlocked caller is Close after s.wg.Wait(): no other goroutine uses the store any more (comment in Close); the other callers hold the lock",
+	}},
+	{Rel: "tsdb", Type: "Store", Field: "sfiles", Mu: "mu", Why: "series files are opened lazily while databases are dropped"},
+	{Rel: "query", Type: "TaskManager", Field: "queries", Mu: "mu", Why: "queries are attached and detached concurrently with the per-query watchers: a concurrent map read and map write is a fatal runtime error"},
+	{Rel: "tsdb/index/inmem", Type: "Index", Field: "measurements", Mu: "mu", Why: "the measurement map is read by queries while writes and drops change it"},
+	{Rel: "tsdb/index/inmem", Type: "Index", Field: "series", Mu: "mu", Why: "the series map is read by queries while writes and drops change it"},
+}
+
 func runC19rest(c *core.Ctx) {
+	c.Clause("D9", func() { guardedByRule(c, guardedRows) })
 	c.Clause("D5", func() {
 		n := 0
 		for _, f := range c.P.FuncsIn(coord) {
